@@ -120,6 +120,7 @@ Inductive fstep_shape (fs : fstate) : fevent -> fstate -> Prop :=
     fstep_shape fs (Ev (SFC n)) (mkF (fb fs) (f_cancelled fs) false true (remove_node n (f_rd fs)))
 | fs_base e st' :
     f_aborted fs = false -> (forall b, e <> Ret b) -> step g c (fb fs) e = Some st' ->
+    on_virtual c ext e = false ->
     fstep_shape fs (Ev e) (with_base fs st')
 | fs_exx n was :
     f_aborted fs = false -> ph (fb fs) n = ExQ was ->
@@ -168,6 +169,7 @@ Proof.
            match type of H with
            | match step g c (fb fs) ?e with _ => _ end = _ =>
                destruct (step g c (fb fs) e) eqn:Hs; [|discriminate];
+               match type of H with (if ?v then _ else _) = _ => destruct v eqn:Hv; [discriminate|] end;
                injection H as <-; apply fs_base; auto; intros ?; discriminate
            end).
     { destruct (f_aborted fs) eqn:Hab; [discriminate|].
@@ -176,6 +178,7 @@ Proof.
         injection H as <-. apply fs_deadclose; auto.
         destruct (ph (fb fs) n); simpl in Hd; congruence.
       - destruct (step g c (fb fs) (SFC n)) eqn:Hs; [|discriminate].
+        destruct (on_virtual c ext (SFC n)) eqn:Hv; [discriminate|].
         injection H as <-. apply fs_base; auto. intros ?; discriminate. }
     match goal with |- fstep_shape _ (Ev (Ret ?b)) _ => destruct b end.
     + destruct (negb (tainted g fs) && ret_ok_guard g c ext (fb fs)) eqn:Hg; [|discriminate].
